@@ -387,11 +387,23 @@ func suiteC11(r *Run) {
 			grpchantesting.RegisterTestServiceServer(hs, svr)
 			return hs
 		}
+		unknownLength := false
 		do := func(ct string, body []byte) (*http.Response, *Msg, error) {
-			req := httptest.NewRequest("POST", mUnary, bytes.NewReader(body))
+			var rd io.Reader = bytes.NewReader(body)
+			if unknownLength {
+				rd = struct{ io.Reader }{rd} // as with chunked transfer encoding: ContentLength is -1
+			}
+			req := httptest.NewRequest("POST", mUnary, rd)
 			req.Header.Set("Content-Type", ct)
 			rec := httptest.NewRecorder()
-			mk().ServeHTTP(rec, req)
+			pan := ""
+			func() { defer recoverTo(&pan); mk().ServeHTTP(rec, req) }()
+			if pan != "" {
+				r.Violate("http-server/panic", "no request makes the server panic", sprintf("valid unary request (%s, %d bytes, length declared: %v): %s", ct, len(body), !unknownLength, trunc(pan, 120)),
+					map[string]interface{}{"op": "valid-unary-request", "content_type": ct, "body_len": len(body), "content_length_declared": !unknownLength}, trunc(pan, 80))
+				rec = httptest.NewRecorder()
+				rec.WriteHeader(599)
+			}
 			out := &Msg{}
 			var err error
 			if rec.Code == 200 {
@@ -408,6 +420,14 @@ func suiteC11(r *Run) {
 		if rp.StatusCode != rj.StatusCode || rp.Header.Get("X-GRPC-Status") != rj.Header.Get("X-GRPC-Status") || ep != nil || ej != nil || !proto.Equal(mp, mj) {
 			r.Violate("http-server/json-differs-from-proto", "a JSON-encoded unary request is handled identically to its protobuf encoding",
 				sprintf("proto: %d %q; json: %d %q; responses equal=%v", rp.StatusCode, rp.Header.Get("X-GRPC-Status"), rj.StatusCode, rj.Header.Get("X-GRPC-Status"), proto.Equal(mp, mj)), c, "")
+		}
+		// the same request without a declared length is the same request
+		unknownLength = true
+		ru, mu2, eu := do("application/x-protobuf", marshalDet(in))
+		unknownLength = false
+		if ru.StatusCode != rp.StatusCode || ru.Header.Get("X-GRPC-Status") != rp.Header.Get("X-GRPC-Status") || eu != nil || !proto.Equal(mu2, mp) {
+			r.Violate("http-server/undeclared-length-differs", "the server invokes the registered handler … when the method is POST, the content type is one that RPC kind supports and the request headers decode (however the body's length is conveyed)",
+				sprintf("with Content-Length: %d %q; without: %d %q; responses equal=%v", rp.StatusCode, rp.Header.Get("X-GRPC-Status"), ru.StatusCode, ru.Header.Get("X-GRPC-Status"), proto.Equal(mu2, mp)), c, "")
 		}
 		// unknown path
 		req := httptest.NewRequest("POST", "/grpchantesting.TestService/Nope"+strconv.Itoa(i), bytes.NewReader(nil))
